@@ -200,6 +200,11 @@ def sites_of(F, inst):
                         ty = st["rv"].get("aty")
                 s = Site(inst, bb, "overflow", op, tuple(ops), t.get("span", ""))
                 how = discharge_overflow(A, bb, op, ops[0], ops[1], ty) if len(ops) == 2 else None
+                if how is None:
+                    ct = tb.operand(t["cond"], at_end)
+                    f = G.cond_fact(ct, bool(t["expected"]))
+                    if f[0] == "const" and f[1]:
+                        how = "R1 the overflow condition is constant false (e.g. constant shift amount below the bit width)"
                 s.status, s.how = ("discharged", how) if how else ("open", "no fact bounds the operation: with overflow checks it panics, without it wraps")
                 out.append(s)
             elif msg in ("DivisionByZero", "RemainderByZero"):
